@@ -33,8 +33,13 @@ TRUSTED_BASE = [
     "Lean 4.33 kernel; axioms per theorem audited by #print axioms on every run, allowed: propext, Classical.choice, Quot.sound",
     "Lean compiler/runtime for the driver executable (executable model evaluation is not kernel-checked)",
     "tools/translate.py (Python ast -> Lean for ScalarFuncs/NumbaReductionOps + extracted constants); cross-checked by the scalar table correspondence",
+    "tools/translate_loops.py (Python ast -> Lean for the loop kernels _group_by_reduce, reduce_array_pair, _find_nth, _find_first_or_last_n, "
+    "_cumulative_reduce, _build_group_sorted_indexer_numba, _rolling_sum_or_mean_1d, _rolling_shift_or_diff_1d, _ema_grouped, _ema_grouped_timed: arrays as "
+    "total functions with numba's negative-index wrap, narrow integer stores wrapped, prange treated as range, a raise / failed assert as an error flag; "
+    "true division of an accumulated value and exp / ln 2 are uninterpreted functions); the generated loops are proved equal to the hand-written models "
+    "in LoopBridge/*.lean, and the models are tied to the running code by the correspondence",
     "tools/harness (generators, canonicaliser, adapters calling the real code in-process)",
-    "numba loops, dispatch code and pandas/numpy/pyarrow glue are hand-modelled and tied by differential execution only",
+    "the remaining numba loops (rolling max/min, monotonic factorization, nanops), the dispatch code and the pandas/numpy/pyarrow glue are hand-modelled and tied by differential execution only",
     "IEEE arithmetic replaced by exact integer/rational arithmetic on exactly representable inputs",
 ]
 
